@@ -126,5 +126,13 @@ func TestVerifC12(t *testing.T) {
 		scs = append(scs, c12Wheel("wheel-add4", []time.Duration{5 * s, 2 * s, 9 * s, 2 * s}, false, 2),
 			c12Wheel("wheelclose-add3", []time.Duration{5 * s, 0, 1 * s}, true, 2))
 	}
+	if vx.Thorough() {
+		// the pre-emption bound 3 space of the 3-4 thread scenarios does not close in an
+		// hour: every scenario gets an execution budget per shard; a scenario that
+		// exhausts it is reported as capped (bound completed = 2) instead of running on
+		for i := range scs {
+			scs[i].MaxExecs = 1500000
+		}
+	}
 	r.ExploreSchedules(scs)
 }
